@@ -130,6 +130,9 @@ def install(ex):
         if isinstance(v, SList):
             return SInt(v.length)
         if isinstance(v, PObj):
+            hook = I.ex.len_hooks.get(v.clsname())
+            if hook:
+                return hook(I, v)
             if isinstance(v.cls, ClassRef):
                 m = I.find_method(v.cls, "__len__")
                 if m is not None:
@@ -289,6 +292,8 @@ def install(ex):
     regtype("dict", b_dict, ("dict",))
 
     def b_list(I, it=()):
+        if hasattr(it, "iter_state"):
+            return it           # snapshot of an abstract iterable: iterated through its protocol
         if isinstance(it, SList):
             return it.copy(I) if hasattr(it, "copy") else _undecided("list(SList)")
         return list(I.iterate_concrete(it))
